@@ -48,8 +48,9 @@ SCORER_CHOICES = {
 def formula_cases(draw, tier):
     det = draw(st.sampled_from(["PELT", "SeededBinarySegmentation", "CAPA", "MovingWindow", "CircularBinarySegmentation"]))
     p = draw(st.integers(1, 5))
-    scale = draw(st.one_of(st.sampled_from([0.5, 2.5, 0.0, 1.0, 3.7]), st.floats(0.0, 10.0, allow_nan=False)))
-    case = {"detector": det, "p": p, "scale": scale}
+    scale = draw(st.one_of(st.sampled_from([0.5, 2.5, 0.0, 1.0, 3.7, 2.0, 3.0]), st.floats(0.0, 10.0, allow_nan=False)))
+    # a whole-numbered scale may come out of a grid scan as a NumPy integer (for s in np.arange(1, 4): ...)
+    case = {"detector": det, "p": p, "scale": scale, "scale_type": "np.int64" if float(scale).is_integer() and draw(st.booleans()) else "python"}
     # the documented defaults depend on the shape of the data only, whatever scorer (and number of parameters it estimates) is used
     scorer = draw(st.sampled_from(SCORER_CHOICES[det])) if det in SCORER_CHOICES else None
     msl = 2
@@ -104,6 +105,9 @@ def fitted_values(det_name, params, n, p):
 
 def check_formula(case):
     det_name, n, p, scale, params = case["detector"], case["n"], case["p"], case["scale"], case["params"]
+    if case.get("scale_type") == "np.int64":
+        main = [k for k in params if k.endswith("scale") and not k.startswith("point")][0]
+        params = dict(params, **{main: np.int64(int(scale))})
     with sut(f"{det_name}.fit"):
         det = fitted_values(det_name, params, n, p)
     reg = K.registry()
@@ -137,7 +141,7 @@ def check_formula(case):
         if not close(float(det.point_penalty_), ps * float(detp.point_penalty_), 1e-10) or det.point_penalty_ < 0:
             raise Violation("CAPA.point_penalty_ is not proportional to point_penalty_scale", scale=ps,
                             got=float(det.point_penalty_), at_scale_one=float(detp.point_penalty_))
-    return {"nontrivial": scale not in (0.0, 1.0), "classes": [f"det={det_name}", f"scorer={case.get('scorer', 'default')}"]}
+    return {"nontrivial": scale not in (0.0, 1.0), "classes": [f"det={det_name}", f"scorer={case.get('scorer', 'default')}"] + (["numpy_integer_scale"] if case.get("scale_type") == "np.int64" else [])}
 
 
 # ------------------------------------------------------------------ (ii) tuned thresholds
